@@ -67,6 +67,13 @@ func (c *FnCtx) analyseLoops() {
 	for i, h := range heads {
 		c.loops[h].ord = i + 1
 	}
+	for _, li := range c.loops {
+		for blk := range li.body {
+			for w := range c.writes[blk] {
+				li.writes[w] = true
+			}
+		}
+	}
 }
 
 func (c *FnCtx) blockPos(b *ssa.BasicBlock, li *loopInfo) token.Pos {
@@ -158,6 +165,12 @@ func (c *FnCtx) edgeCond(p, b *ssa.BasicBlock, st *blockState) string {
 
 // run executes the function body symbolically, producing items and obligations.
 func (c *FnCtx) run() {
+	c.entryReach = "true"
+	c.runBody()
+}
+
+// runBody executes the blocks of c.fn starting from the current heap with reach condition c.entryReach.
+func (c *FnCtx) runBody() {
 	c.analyseLoops()
 	order := c.topo()
 	c.checkReducible(order)
@@ -187,7 +200,7 @@ func (c *FnCtx) run() {
 			ins = append(ins, inEdge{p, ec, st})
 		}
 		if b == c.fn.Blocks[0] {
-			c.reach = "true"
+			c.reach = c.entryReach
 		} else {
 			if len(ins) == 0 {
 				// unreachable in the model
@@ -505,6 +518,9 @@ func (c *FnCtx) loopEnv(head *ssa.BasicBlock, subst map[ssa.Value]Val, h Heap) *
 		return c.val(v)
 	}
 	env := &Env{c: c, names: map[string]Val{}, heap: h, old: c.entry, pkg: c.pkg, what: "loop invariant of " + c.fn.Name()}
+	for _, p := range c.fn.Params {
+		env.names["entry_"+p.Name()] = c.vals[p]
+	}
 	env.lookup = func(name string) (Val, bool) {
 		v, isAddr, ok := c.resolveName(name, head, 0, true)
 		if !ok {
